@@ -273,6 +273,28 @@ fn compress_case<K: Kmer + Send + Sync>(c: &mut Case, gc: &GCase, which: Which) 
             }
         }
     }
+    // node-level compressor on the one-k-mer-per-node graph: same partition expected
+    if which == Which::Maximal {
+        let mut b1: BaseGraph<K, Pay> = BaseGraph::new(stranded);
+        for (key, v) in &pruned {
+            b1.add(
+                key.clone(),
+                Exts::new(v.mask),
+                Pay {
+                    colour: v.colour,
+                    ids: vec![v.id],
+                },
+            );
+        }
+        spec.reset();
+        let gq = compress_graph(stranded, &spec, b1.finish(), None);
+        let nodes = views(&gq.base);
+        check_maximal(&nodes, &pruned_masks, k, stranded, &join)
+            .map_err(|e| format!("compress_graph on the one-k-mer-per-node graph: {}", e))?;
+        check_join_log(&nodes, &spec.log.borrow())
+            .map_err(|e| format!("compress_graph on the one-k-mer-per-node graph: {}", e))?;
+        c.count("graphs_built", 1);
+    }
     // the library's own colour predicate (ScmapCompress): payload = colour
     if which == Which::Maximal {
         let rows: Vec<(K, (Exts, u8))> = pruned
@@ -1128,6 +1150,17 @@ fn c06_case<K: Kmer + Send + Sync>(c: &mut Case, gc: &GCase) -> Result<(), Strin
             let stu = check_edges(&gu, Some(&sm.adjacency), false).map_err(|e| format!("stranded unpruned graph: {}", e))?;
             ensure!(stu.flips == 0, "stranded unpruned graph reports flip edges");
             c.count("stranded_unpruned_graphs", 1);
+        }
+        // sharded route in stranded mode (pruning against per-shard all_kmers must not mix strands)
+        if c.rng.chance(1, 2) {
+            let gs = if k > 5 {
+                lib_sharded::<K, Kmer3, DnaString>(&base_seqs, true, gc.thr, None, false).0
+            } else {
+                lib_sharded::<K, Kmer2, DnaString>(&base_seqs, true, gc.thr, None, false).0
+            };
+            let ss = summarize(&pay_views(&gs), k, true);
+            diff_summaries(&ss, &sm, "stranded sharded", "forward-strand model")?;
+            c.count("stranded_sharded_graphs", 1);
         }
         c.count("stranded_cases", 1);
         c.count("stranded_kmers_present_on_both_strands", both_strands);
